@@ -382,29 +382,68 @@ pub fn check_c13<F: Real>(case: &Case, a: &MP, b: &MP, run: &SweepRun<F>, tol: f
             }
         }
     }
-    // --- every input edge is covered exactly by a chain of its sub-segments (complete sweeps only)
-    if run.complete && !case.self_crossing {
+    // --- every input edge is covered exactly by a chain of its sub-segments (complete sweeps only):
+    //     walk from the edge's left endpoint along sub-segments of the same operand that start bit-exactly where
+    //     the previous one ended and stay on the edge, until the right endpoint is reached bit-exactly
+    if run.complete {
+        let mut by_left: HashMap<(u64, u64, bool), Vec<usize>> = HashMap::new();
+        for (i, (s, subj)) in segs.iter().enumerate() {
+            by_left.entry((s.0 .0.to_bits(), s.0 .1.to_bits(), *subj)).or_default().push(i);
+        }
         for (edges, subj) in [(&ea, true), (&eb, false)] {
             for e in edges.iter() {
                 let e = norm_seg(*e);
-                let mut parts: Vec<Seg> = segs
-                    .iter()
-                    .filter(|(s, sj)| {
-                        *sj == subj
-                            && if tol == 0.0 {
-                                on_seg(e, s.0) && on_seg(e, s.1)
-                            } else {
-                                dist_pt_seg(s.0, e) <= tol && dist_pt_seg(s.1, e) <= tol
-                            }
-                    })
-                    .map(|(s, _)| *s)
-                    .collect();
-                parts.sort_by(|x, y| x.partial_cmp(y).unwrap());
-                parts.dedup();
                 st.chains += 1;
-                let ok = !parts.is_empty() && parts[0].0 == e.0 && parts[parts.len() - 1].1 == e.1 && parts.windows(2).all(|w| w[0].1 == w[1].0);
-                if !ok {
-                    return Err(format!("sub-segments of the {} edge {:?}-{:?} do not chain from its start to its end: {:?}", if subj { "subject" } else { "clipping" }, e.0, e.1, parts));
+                // depth-first with backtracking: at a thin spike two sub-segments of different edges of the same
+                // operand can start at the same vertex within the tolerance of this edge
+                let next_of = |cur: Pt| -> Vec<Pt> {
+                    let mut v: Vec<Pt> = by_left
+                        .get(&(cur.0.to_bits(), cur.1.to_bits(), subj))
+                        .map(|v| {
+                            v.iter()
+                                .map(|&i| segs[i].0 .1)
+                                .filter(|&q| {
+                                    let on = if tol == 0.0 { on_seg(e, q) } else { dist_pt_seg(q, e) <= tol && param_on(e, q) > param_on(e, cur) && param_on(e, q) <= 1.0 + 1e-6 };
+                                    on && lex_lt(cur, q)
+                                })
+                                .collect()
+                        })
+                        .unwrap_or_default();
+                    v.sort_by(|a, b| dist_pt_seg(*a, e).partial_cmp(&dist_pt_seg(*b, e)).unwrap());
+                    v.dedup();
+                    v
+                };
+                let mut stack: Vec<(Pt, Vec<Pt>, usize)> = vec![(e.0, next_of(e.0), 0)];
+                let mut reached = false;
+                let mut visited = 0usize;
+                let mut deepest: Vec<Pt> = vec![e.0];
+                while let Some((cur, cands, k)) = stack.pop() {
+                    if cur == e.1 {
+                        reached = true;
+                        break;
+                    }
+                    visited += 1;
+                    if visited > 20_000 {
+                        break;
+                    }
+                    if k < cands.len() {
+                        let q = cands[k];
+                        stack.push((cur, cands, k + 1));
+                        let nq = next_of(q);
+                        stack.push((q, nq, 0));
+                        if stack.len() > deepest.len() {
+                            deepest = stack.iter().map(|x| x.0).collect();
+                        }
+                    }
+                }
+                if !reached {
+                    return Err(format!(
+                        "sub-segments of the {} edge {:?}-{:?} do not chain from its start to its end: longest chain found {:?}",
+                        if subj { "subject" } else { "clipping" },
+                        e.0,
+                        e.1,
+                        deepest
+                    ));
                 }
             }
         }
@@ -415,7 +454,7 @@ pub fn check_c13<F: Real>(case: &Case, a: &MP, b: &MP, run: &SweepRun<F>, tol: f
 // ------------------------------------------------------------------------------------------
 // C14
 
-fn side_points(s: Seg, input_segs: &[Seg], clear: f64) -> Option<(Pt, Pt)> {
+fn side_points(s: Seg, input_segs: &[Seg], clear: f64, tol: f64) -> Option<(Pt, Pt)> {
     // "above" = left of the direction left endpoint -> right endpoint (for a vertical segment: its left side)
     let (dx, dy) = (s.1 .0 - s.0 .0, s.1 .1 - s.0 .1);
     let len = (dx * dx + dy * dy).sqrt();
@@ -423,24 +462,19 @@ fn side_points(s: Seg, input_segs: &[Seg], clear: f64) -> Option<(Pt, Pt)> {
         return None;
     }
     let (nx, ny) = (-dy / len, dx / len);
+    // carriers: input edges on which this sub-segment lies
+    let is_carrier = |t: &Seg| if tol == 0.0 { on_seg(*t, s.0) && on_seg(*t, s.1) } else { dist_pt_seg(s.0, *t) <= tol && dist_pt_seg(s.1, *t) <= tol };
+    let others: Vec<Seg> = input_segs.iter().filter(|t| !is_carrier(t)).cloned().collect();
     for frac in [0.3125, 0.5, 0.6875, 0.2, 0.8] {
         let m = (s.0 .0 + frac * dx, s.0 .1 + frac * dy);
         let mut delta = len * 0.0625;
         while delta > 2.0 * clear {
             let above = (m.0 + delta * nx, m.1 + delta * ny);
             let below = (m.0 - delta * nx, m.1 - delta * ny);
-            // both points must be clear of every input edge except the carrier(s) of this sub-segment, from which
-            // they are delta away; and nothing may pass between them and the sub-segment
+            // both points clear of every other input edge, and no other input edge meets the probe between them
             let mut ok = true;
-            for t in input_segs {
-                let da = dist_pt_seg(above, *t);
-                let db = dist_pt_seg(below, *t);
-                if da <= clear || db <= clear {
-                    ok = false;
-                    break;
-                }
-                if da < delta * 0.999 || db < delta * 0.999 {
-                    // another edge is closer than the sub-segment itself
+            for t in &others {
+                if dist_pt_seg(above, *t) <= clear || dist_pt_seg(below, *t) <= clear || seg_rel((below, above), *t) != Rel::Disjoint {
                     ok = false;
                     break;
                 }
@@ -468,7 +502,7 @@ pub fn check_c14<F: Real>(case: &Case, a: &MP, b: &MP, op: Op, run: &SweepRun<F>
     }
     for (l, r) in &subs {
         let s = (pt(l), pt(r));
-        let (above, below) = match side_points(s, &input_segs, clear) {
+        let (above, below) = match side_points(s, &input_segs, clear, tol) {
             Some(v) => v,
             None => {
                 st.flags_skipped_unclear += 1;
